@@ -9,7 +9,7 @@ Lits == [pre : BOOLEAN, post : BOOLEAN, nph : 1..2,
          ty : PhTypes, mod : {"none", "ws", "colon", "colon_ws", "width", "fill", "left", "center", "right", "sign", "minus", "alt", "zero", "prec"}]
 ArgForms == {"none", "pos_field", "pos_expr", "named_match", "named_nomatch", "two"}
 
-Shareds == {"none", "bare_variant", "wrap"}
+Shareds == {"none", "bare_variant", "wrap", "default"}
 Cases == [hasAttr : {TRUE}, nfields : 1..2, named : BOOLEAN, D : DerivedTraits, lit : Lits, args : ArgForms, sh : Shareds]
          \cup [hasAttr : {FALSE}, nfields : 1..2, named : BOOLEAN, D : DerivedTraits \ {"Debug"}, lit : {NoLit}, args : {"none"}, sh : Shareds]
 
@@ -38,6 +38,8 @@ P_C05_IffShared == c.nfields # 0 => IffShared(c.sh, c.hasAttr, c.nfields, c.D, c
 P_C05_Trait == c.nfields # 0 /\ c.hasAttr =>
     LET d == DocOutcome(c.hasAttr, c.nfields, c.D, c.lit, c.args) IN d[1] = "pass" => d[2] = TraitOf(c.lit.ty)
 Emit == EmitCases /\ c.nfields # 0 =>
-    PrintT(<<"CASE", ToJson([c |-> c, doc |-> DocShared(c.sh, c.D, DocOutcome(c.hasAttr, c.nfields, c.D, c.lit, c.args)),
-                             impl |-> ImplShared(c.sh, c.D, ImplOutcome(c.hasAttr, c.nfields, c.D, c.lit, c.args))])>>)
+    PrintT(<<"CASE", ToJson([c |-> c, doc |-> IF c.sh = "default" THEN DocSharedDefault(c.hasAttr, DocOutcome(c.hasAttr, c.nfields, c.D, c.lit, c.args))
+                                            ELSE DocShared(c.sh, c.D, DocOutcome(c.hasAttr, c.nfields, c.D, c.lit, c.args)),
+                             impl |-> IF c.sh = "default" THEN ImplSharedDefault(c.hasAttr, ImplOutcome(c.hasAttr, c.nfields, c.D, c.lit, c.args))
+                                             ELSE ImplShared(c.sh, c.D, ImplOutcome(c.hasAttr, c.nfields, c.D, c.lit, c.args))])>>)
 =============================================================================
